@@ -21,6 +21,8 @@ VT == [k |-> "var", l |-> "T", id |-> "T", sfx |-> "$"]
 
 Run(ch, n) == [i \in 1..n |-> ch]
 Strs == { <<>>, <<65>>, <<65, 66>>, <<65, 66, 65>>, <<233>>, <<97, 233>>, <<233, 97, 128512, 98>>, <<66, 65, 66, 65, 66>> }
+\* first characters around the 16-bit limits (ASC's result type changes there)
+AscStrs == { <<32767>>, <<32768, 65>>, <<35486>>, <<65535>>, <<65536>>, <<128512, 65>> }
 Longs == { Run(120, 254), Run(120, 255), Run(233, 255) }
 Pats == { <<>>, <<65>>, <<66, 65>>, <<233>>, <<128512, 98>>, <<90>>, <<65, 66, 65, 66>> }
 Nums == { -1, 0, 1, 2, 3, 4, 5, 255, 256, 32767 } 
@@ -35,7 +37,8 @@ ValTexts == { <<49, 50, 65, 66>>, <<32, 45, 51, 46, 53, 69, 49, 88>>, <<38, 72, 
 StrNums == { MkI(0), MkI(5), MkI(-12), MkI(32767), MkI(-32768), MkF("S", 5, 1), MkF("S", -3, 2), MkF("D", 1, 3), MkF("S", 1234567, 0) }
 
 Cases ==
-  [k : {"len", "asc"}, s : Strs \cup Longs]
+  [k : {"len", "asc"}, s : Strs \cup Longs \cup AscStrs]
+  \cup [k : {"chrasc"}, s : AscStrs]
   \cup [k : {"left", "right"}, s : Strs \cup {Run(120, 255)}, n : Nums]
   \cup [k : {"lefth", "midh"}, s : Strs]
   \cup [k : {"mid2"}, s : Strs, p : Nums]
@@ -58,6 +61,7 @@ Cases ==
 ExprOf(cs) ==
   CASE cs.k = "len" -> Fn("LEN", <<VS>>)
     [] cs.k = "asc" -> Fn("ASC", <<VS>>)
+    [] cs.k = "chrasc" -> Fn("CHR$", <<Fn("ASC", <<VS>>)>>)
     [] cs.k = "left" -> Fn("LEFT$", <<VS, NumX(cs.n)>>)
     [] cs.k = "right" -> Fn("RIGHT$", <<VS, NumX(cs.n)>>)
     [] cs.k = "lefth" -> Fn("LEFT$", <<VS, Half>>)
